@@ -93,11 +93,17 @@ fn pf(p: u8) -> PointFlags {
 /// the flag mask `read_points_fast` applies (0x01, or 0x81 with feature `spec_next`)
 fn probe_mask() -> u8 {
     let g = [0u8, 1, 0, 0, 0, 0, 0, 0, 0, 0, 0, 0, 0, 0, 0xB1];
-    let g = SimpleGlyph::read(FontData::new(&g)).unwrap();
-    let mut p = [Point::<i32>::default(); 1];
-    let mut f = [PointFlags::default(); 1];
-    g.read_points_fast(&mut p, &mut f).unwrap();
-    f[0].to_bits()
+    // (a failing probe must not take the group down: the cases then show what is wrong)
+    catch(|| {
+        let g = SimpleGlyph::read(FontData::new(&g)).ok()?;
+        let mut p = [Point::<i32>::default(); 1];
+        let mut f = [PointFlags::default(); 1];
+        g.read_points_fast(&mut p, &mut f).ok()?;
+        Some(f[0].to_bits())
+    })
+    .ok()
+    .flatten()
+    .unwrap_or(1)
 }
 
 /// reference scan of the flag bytes for `n` points: classification for the branch distribution only
